@@ -1,0 +1,42 @@
+//go:build verif
+
+// Contracts for request admission and dispatch (nfs_handlers.go): C09, C14, C16. Comment-only file.
+package absnfs
+
+// Ghost bookkeeping: handlerCalls counts executions of HandleCall's dispatch goroutine, the only place
+// handleNFSCall / handleMountCall (and through them every procedure handler and backend call) are reached.
+//@ ghost handlerCalls int
+
+//@ func NFSProcedureHandler.HandleCall$1
+//@ prop C16 C09
+//@ abstract
+// the goroutine OWNS the policy read lock taken by HandleCall (ownership transfer at the go statement):
+// it is entered with the lock read-held and releases it exactly once on every path, after the handler ran
+//@ requires handler != nil && h != nil && h.server != nil && call != nil && reply != nil && held(handler.policyRWMu) == 1
+//@ modifies everything, handlerCalls, locks
+//@ atreturn set handlerCalls = handlerCalls + 1
+//@ ensures [counts] handlerCalls == old(handlerCalls) + 1
+//@ ensures [released-once] held(old(handler).policyRWMu) == 0
+// the procedure handlers run while the read lock is still held
+//@ callassert NFSProcedureHandler.handleNFSCall : [handler-under-lock] held(handler.policyRWMu) == 1
+//@ callassert NFSProcedureHandler.handleMountCall : [handler-under-lock] held(handler.policyRWMu) == 1
+
+//@ func AbsfsNFS.snapshotOptions
+//@ prop C09 C16
+//@ requires n != nil
+//@ modifies extstate
+//@ ensures [snapshot] result != nil && fresh(result) && result.Tuning == curTuning(n) && result.Policy == curPolicy(n)
+
+//@ func NFSProcedureHandler.HandleCall
+//@ prop C09 C14 C16
+//@ requires srvOK(h) && call != nil && authCtx != nil && authCtx.Credential != nil && curTuning(h.server.handler).Timeouts != nil
+// a rejected request reaches no procedure handler (and so no backend call): the dispatch goroutine is
+// spawned only on the path where authentication allowed the request
+//@ callassert NFSProcedureHandler.HandleCall$1 : [dispatch-only-if-allowed] authResult != nil && authResult.Allowed
+// every reply built by HandleCall itself (policy drain, authentication denied) echoes the call's XID
+//@ ensures [own-replies-echo-xid] handlerCalls == old(handlerCalls) && result0 != nil ==> result0.Header.Xid == call.Header.Xid && result0.Header == call.Header
+//@ ensures [denied-or-drain] handlerCalls == old(handlerCalls) && result0 != nil ==> result0.Status == 1 || (result0.Status == 0 && result0.AcceptStatus == 0)
+//@ ensures [reply-or-error] isnil(result1) ==> result0 != nil || handlerCalls != old(handlerCalls)
+// lock discipline (C16): a request refused at admission holds nothing afterwards; an admitted request's
+// read lock has been handed to (and, in the sequential abstraction of the spawn, released by) the goroutine
+//@ ensures [no-lock-leak] held(old(h.server.handler).policyRWMu) == 0
